@@ -35,6 +35,9 @@ func (pushEngine) Generate(prop string, r *simrt.RNG, tier string, run int) *sim
 	sc := &simrt.Scenario{Knobs: map[string]int64{}}
 	trunk := r.Range(12, 14)
 	ids := genTree(r, sc, trunk, r.Range(1, 2), 3)
+	if r.Chance(1, 5) {
+		sc.Knobs["big"] = 1
+	}
 	// outcome scripts: 0 ack, 1 error, 2 timeout; bursts of failures reach the
 	// three-in-a-row deactivation
 	for s := 0; s < nSubs; s++ {
@@ -99,13 +102,13 @@ func (e pushEngine) Execute(t *testing.T, ctx *simrt.Ctx) *simrt.Violation {
 
 // subscriber is the simulated endpoint of one push subscription.
 type subscriber struct {
-	name      string
-	ty        int32
-	script    []int64
-	calls     int
-	healed    bool  // outcome script exhausted / faults stopped: always ack
-	known     bool  // lastAcked is defined
-	lastAcked int64 // highest sequence the subscriber acknowledged
+	name       string
+	ty         int32
+	script     []int64
+	calls      int
+	healed     bool  // outcome script exhausted / faults stopped: always ack
+	known      bool  // lastAcked is defined
+	lastAcked  int64 // highest sequence the subscriber acknowledged
 	registered bool
 }
 
@@ -175,6 +178,12 @@ func (ep *endpoint) PostData(req *types.PushSubscribeReq, data []byte, updateSeq
 		}
 		for _, q := range p.Items {
 			nums = append(nums, q.SeqNum)
+		}
+	}
+	if len(data) > 600000 {
+		ep.ctx.Probe("payload_near_size_cap")
+		if len(nums) < 10 {
+			ep.ctx.Probe("batch_cut_by_size_cap")
 		}
 	}
 	// ordering within the payload and against what was acknowledged
@@ -249,6 +258,10 @@ func (pushEngine) run(ctx *simrt.Ctx) *simrt.Violation {
 	sc := ctx.Sc
 	uid := fmt.Sprintf("%s-%d-%d", sc.Property, sc.Run, ctx.Seq())
 	w := NewWorld(ctx, "fac-"+uid, simnode.Opts{})
+	if sc.Knob("big", 0) == 1 {
+		// ~190 KB per block: a catch-up batch of ten sequences exceeds the push size cap
+		w.Ballast = 95000
+	}
 	defer w.Fac.Close()
 	defer w.Fac.Disk.Remove()
 	sut := simnode.New(simnode.Opts{ID: "sut-" + uid, StubMempool: true})
